@@ -299,6 +299,7 @@ def c16(tier, seed):
             "Lopen": opn("liq", "buy", 200, 1000, funds=200 if native else 0),
             "Lclose": close("liq"),
             "C": opn("tr1", "buy", 100, 1000, funds=100 if native else 0),
+            "Cclose": close("tr1"),
             "N": block(15),
             "PF": tx("engine", "pay_funding", "stranger", dict(vamm="vamm1")),
         }
@@ -321,6 +322,15 @@ def c16(tier, seed):
                 ops = underwater_prefix(native) + ([block(3600)] if "PF" in sq else []) + [acts[a] for a in sq]
                 out.append(dict(id="c16-%d" % k, deploy=dep(coll, engine=dict(plr=plr)), ops=ops))
                 k += 1
+        # the liquidated trader itself, and traders whose position was closed earlier in the block:
+        # (partial) liquidation then close / open by the liquidated trader; close, liquidation, re-open
+        for plr in (0, 25, 50):
+            for push in (3200, 3600, 4000, 4400, 5000):
+                for sq in (("Lq", "Cclose"), ("Lq", "C"), ("Lq", "N", "Cclose"), ("A", "N", "A2", "Lq", "A"),
+                           ("A", "N", "A2", "Lq", "N", "A"), ("B", "N", "Lq", "B"), ("Lq", "Cclose", "C")):
+                    ops = underwater_prefix(native, push=push) + [acts[a] for a in sq]
+                    out.append(dict(id="c16-%d" % k, deploy=dep(coll, engine=dict(plr=plr, liqfee=1, mmr=10, imr=10)), ops=ops))
+                    k += 1
     return out
 
 # ------------------------------------------------------------------------------------------------
